@@ -355,6 +355,13 @@ class Interp:
             return self.modules[name]
         if name in self.stubs:
             return self.stubs[name]
+        # real import semantics: parent packages are imported (their __init__ executed) first
+        if "." in name:
+            parent = name.rpartition(".")[0]
+            if any(parent == p or parent.startswith(p + ".") for p, _ in self.roots):
+                self.import_module(parent)
+                if name in self.modules:
+                    return self.modules[name]
         path, is_pkg = self.find_module_file(name)
         if path is None:
             root = name.split(".")[0]
@@ -620,6 +627,8 @@ class Interp:
             if default is not MISSING:
                 return default
             if obj.is_stub:
+                if obj.name in ("logging", "sys", "os", "traceback", "readline", "glob", "pathlib", "json"):
+                    return self.bm.opaque(obj.name + "." + name)
                 raise Unsupported("unmodelled %s.%s" % (obj.name, name))
             # sub-module access
             try:
@@ -1276,12 +1285,13 @@ class Interp:
                 self.pure -= 1
 
     def loop_header_text(self, st, frame):
-        src = self.source_cache.get(frame.module.file)
-        if src is None:
-            return ""
+        # canonical single-line form (independent of line breaks / trailing commas)
         if isinstance(st, ast.While):
-            return "while " + ast.get_source_segment(src, st.test)
-        return "for %s in %s" % (ast.get_source_segment(src, st.target), ast.get_source_segment(src, st.iter))
+            return "while " + ast.unparse(st.test)
+        t = ast.unparse(st.target)
+        if t.startswith("(") and t.endswith(")"):
+            t = t[1:-1]
+        return "for %s in %s" % (t, ast.unparse(st.iter))
 
     # --- with / try / raise
     def s_With(self, st, frame):
